@@ -307,6 +307,56 @@ type c02Meta struct {
 	NilCol      bool
 	LenMismach  bool
 	DupNonArray bool
+	// what a same-schema "twin" payload needs (top-level columnar shape only)
+	MVal []byte       `json:"-"`
+	Plan []c02PlanCol `json:"-"`
+}
+
+type c02PlanCol struct {
+	Name  string
+	Class int
+	Time  bool
+}
+
+// c02GenTwin builds a second columnar payload for the same measurement with the
+// same column names and element classes as the planned one but its own row
+// count, values and null pattern, so that both are buffered under one schema
+// signature and MERGED by the flush. Returns nil when the plan is not suitable.
+func c02GenTwin(t *rapid.T, m *c02Meta) []byte {
+	if m.Shape != "columnar" || len(m.MVal) == 0 || len(m.Plan) == 0 || m.DupTop {
+		return nil
+	}
+	seen := map[string]bool{}
+	for _, c := range m.Plan {
+		if seen[c.Name] || (!c.Time && c.Class != eInt && c.Class != eFloat && c.Class != eStr && c.Class != eBool && c.Class != eNil) {
+			return nil
+		}
+		seen[c.Name] = true
+	}
+	w := &mpw{t: t}
+	n := rapid.IntRange(1, 5).Draw(t, "twinrows")
+	w.raw(0x82)
+	w.raw(0xa1, 'm')
+	w.raw(m.MVal...)
+	w.raw(0xa7)
+	w.b = append(w.b, "columns"...)
+	w.mapHdr(len(m.Plan))
+	for _, c := range m.Plan {
+		w.keyv(c.Name)
+		w.arrHdr(n)
+		nilP := rapid.SampledFrom([]int{3, 0, 6, 10}).Draw(t, "twinnilp")
+		for i := 0; i < n; i++ {
+			switch {
+			case c.Time:
+				w.intv(1_700_000_000_000_000 + rapid.Int64Range(0, 7_200_000_000).Draw(t, "twintime"))
+			case nilP > 0 && rapid.IntRange(0, 9).Draw(t, "twinisnil") >= 10-nilP:
+				w.nilv()
+			default:
+				w.elem(c.Class)
+			}
+		}
+	}
+	return w.b
 }
 
 func (w *mpw) timeColumn(n int) {
@@ -362,7 +412,7 @@ func (w *mpw) timeColumn(n int) {
 	}
 }
 
-func (w *mpw) valueColumn(n int, m *c02Meta) {
+func (w *mpw) valueColumn(n int, m *c02Meta) int {
 	class := rapid.SampledFrom([]int{eInt, eFloat, eStr, eBool, eInt, eFloat, eStr, eNil, eInt, eFloat, eStr, eBool}).Draw(w.t, "colclass")
 	if oneIn(w.t, "hostilecol", 12) {
 		class = rapid.SampledFrom([]int{eBigUint, eBin, eExt, eNested}).Draw(w.t, "hostileclass")
@@ -390,6 +440,7 @@ func (w *mpw) valueColumn(n int, m *c02Meta) {
 		}
 		w.elem(c)
 	}
+	return class
 }
 
 func (w *mpw) columnsMap(m *c02Meta) {
@@ -463,8 +514,10 @@ func (w *mpw) columnsMap(m *c02Meta) {
 		if names[i] == "time" {
 			m.TimeCol = true
 			w.timeColumn(cn)
+			m.Plan = append(m.Plan, c02PlanCol{Name: names[i], Time: true})
 		} else {
-			w.valueColumn(cn, m)
+			class := w.valueColumn(cn, m)
+			m.Plan = append(m.Plan, c02PlanCol{Name: names[i], Class: class})
 		}
 	}
 	if dupNA >= 0 && !dupFirst && dupNA == ncols-1 {
@@ -546,7 +599,14 @@ func (w *mpw) columnarMapBody(m *c02Meta) [][]byte {
 		return x.b
 	}
 	if !oneIn(w.t, "nom", 40) {
-		ents = append(ents, sub(func(x *mpw) { x.keyv("m"); x.measurementValue() }))
+		ents = append(ents, sub(func(x *mpw) {
+			x.keyv("m")
+			at := len(x.b)
+			x.measurementValue()
+			if m.MVal == nil {
+				m.MVal = append([]byte(nil), x.b[at:]...)
+			}
+		}))
 	}
 	if !oneIn(w.t, "nocols", 40) {
 		ents = append(ents, sub(func(x *mpw) {
